@@ -124,13 +124,24 @@ def run(ctx):
     if len(accepts) == 1 and loads:
         lb, lt = loads[0]
         bs = bool_switch(a, lt["target"])
+        sb_ = lt["target"]
+        if bs is None:
+            # the branch on the flag may come later (the loaded value passed through `!`, `then(..)`, a helper): the first switch whose
+            # scrutinee derives from this load
+            for b2 in sorted(a.reach([lt["target"]], unwind=False)):
+                bs2 = bool_switch(a, b2)
+                if bs2 and any(x[0] == "call" and x[3] == lb for x in origin_walk(a.origin(bs2[0]))):
+                    bs, sb_ = bs2, b2
+                    break
         ctx.require(bs is not None, "C20.2: flag load is not branched on")
         cont = bs[2] if accepts[0] in a.reach([bs[2]], blocked={lb}, unwind=False) else bs[1]
         stop = bs[1] if cont == bs[2] else bs[2]
         o = a.origin(bs[0])
         neg = o[0] == "unop" and o[1] == "Not"
         cont_when_false = (cont == bs[2]) != neg
-        ok = a.in_loop(lb) and a.dominates(lb, accepts[0], unwind=False) and cont_when_false
+        # ... and the accept is made on the "not set" side of that branch (a flag read before a blocking accept but only looked at after it
+        # returns is stale by then)
+        ok = a.in_loop(lb) and a.dominates(lb, accepts[0], unwind=False) and cont_when_false and a.dominates(cont, accepts[0], unwind=False)
         ctx.ob("C20.2", "accept-thread|flag-checked-before-every-accept", "the accept loop tests the close flag before each accept and leaves when it is set", ok, a.loc(lb))
         r_ = a.reach([a.normal_target(accepts[0])], blocked={lb}, unwind=False)
         ctx.ob("C20.2", "accept-thread|no-accept-without-check", "no second accept happens without re-testing the flag", accepts[0] not in r_, a.loc(accepts[0]))
